@@ -387,6 +387,16 @@ def mpu_write(
         min_part = write.min_part
         lhs_keep = write.min_write_sz
 
+    # part ``min_part`` is for the header and what is left over, then every partition owns
+    # ``writes_per_chunk`` part numbers: refuse up front rather than hand out numbers the
+    # writer does not allow
+    n_parts = 1 + sum(ch.npartitions for ch in chunks) * writes_per_chunk
+    if write is not None and min_part + n_parts - 1 > write.max_part:
+        raise ValueError(
+            f"Need {n_parts} part numbers, writer allows {write.max_part - min_part + 1}:"
+            " use fewer partitions or fewer writes per chunk"
+        )
+
     partId = min_part + 1
     dss: list["dask.bag.Item"] = []
     for idx, ch in enumerate(chunks):
